@@ -111,6 +111,9 @@ pub(crate) fn run(seed: u64, n: u64, out: &mut Out) {
         let mut headers_t: Vec<packed::Byte32> = (0..4).map(|_| bc.chain.headers[rng.range(1, tip - 1) as usize].hash()).collect();
         headers_t.push(other.chain.headers[other.tip() as usize].hash());       // not on the proven chain
         headers_t.push([0xabu8; 32].pack());
+        // a header nobody mined: block 3 relabelled with the tip's number (the user is tricked into asking for it)
+        let forged_header: packed::Header = { let h = bc.chain.headers[3].data(); let raw = h.raw().as_builder().number(tip.pack()).build(); h.as_builder().raw(raw).build() };
+        headers_t.push(forged_header.calc_header_hash());
         let mut txs_t: Vec<packed::Byte32> = (0..4).map(|_| on_chain_txs[rng.below(on_chain_txs.len() as u64) as usize].clone()).collect();
         txs_t.push(other.chain.bodies[other.tip() as usize][0].calc_tx_hash());
         txs_t.push([0xcdu8; 32].pack());
@@ -126,12 +129,12 @@ pub(crate) fn run(seed: u64, n: u64, out: &mut Out) {
             // fetched headers in the store: the targets, plus the blocks of fetched transactions
             let mut sh: Vec<u64> = Vec::new();
             for h in headers_t.iter() { if net.storage.get_header(h).is_some() { sh.push(hid.id(h.as_slice())); } }
-            let mut st: Vec<u64> = Vec::new();
+            let mut st: Vec<(u64, u64)> = Vec::new();
             for t in txs_t.iter() {
-                if let Some((_, header)) = net.storage.get_transaction_with_header(t) { st.push(hid.id(t.as_slice())); let hh = header.calc_header_hash(); let id = hid.id(hh.as_slice()); if !sh.contains(&id) { sh.push(id); } }
+                if let Some((_, header)) = net.storage.get_transaction_with_header(t) { let hh = header.calc_header_hash(); let id = hid.id(hh.as_slice()); st.push((hid.id(t.as_slice()), id)); if !sh.contains(&id) { sh.push(id); } }
             }
             sh.sort(); sh.dedup(); st.sort(); st.dedup();
-            Val::l(vec![Val::l(th.into_iter().map(|x| x.1).collect()), Val::l(tt.into_iter().map(|x| x.1).collect()), Val::l(sh.into_iter().map(Val::n).collect()), Val::l(st.into_iter().map(Val::n).collect())])
+            Val::l(vec![Val::l(th.into_iter().map(|x| x.1).collect()), Val::l(tt.into_iter().map(|x| x.1).collect()), Val::l(sh.into_iter().map(Val::n).collect()), Val::l(st.into_iter().map(|(a, b)| Val::l(vec![Val::n(a), Val::n(b)])).collect())])
         };
         let steps = rng.range(8, 26);
         let mut closing = 0u64;
@@ -149,7 +152,19 @@ pub(crate) fn run(seed: u64, n: u64, out: &mut Out) {
             let choice = if in_closing {
                 // closing rounds: a proven honest peer is there, ticks and honest answers alternate
                 if connected.is_empty() { 6 } else if !pending_b.is_empty() { 20 } else if !pending_t.is_empty() { 21 } else { 2 }
-            } else { rng.below(14) };
+            } else {
+                let have_pending = !pending_b.is_empty() || !pending_t.is_empty();
+                let have_work = !net.peers.get_headers_to_fetch().is_empty() || !net.peers.get_txs_to_fetch().is_empty();
+                match rng.below(20) {
+                    0 => 5,                                         // disconnect
+                    1 => 6,                                         // a fresh proven peer
+                    2 => if rng.chance(1, 2) { 7 } else { 10 },     // an unsolicited answer now and then
+                    3..=7 if have_pending => if !pending_b.is_empty() && (pending_t.is_empty() || rng.chance(1, 2)) { 7 } else { 10 },
+                    8..=9 if have_pending => *rng.pick(&[0u64, 30, 3]),   // the user keeps asking, the tick finds the peer busy
+                    8..=13 if have_work => 3,                       // tick
+                    _ => if rng.chance(1, 2) { 0 } else { 30 },     // fetch_header / fetch_transaction
+                }
+            };
             let (term, v, name): (String, Val, &'static str) = match choice {
                 0 | 1 => {
                     let h = headers_t[rng.below(headers_t.len() as u64) as usize].clone();
@@ -160,7 +175,7 @@ pub(crate) fn run(seed: u64, n: u64, out: &mut Out) {
                     if let Ok(FetchStatus::Fetched { .. }) = &r { if net.storage.get_header(&h).is_none() { problems.push("[C16-fetched-without-data] fetch_header says fetched, the header is not stored".into()); } }
                     (format!("FE_fetch_header {} {}", hid.id(h.as_slice()), now), v, "fetch_header")
                 }
-                2 if !in_closing => {
+                30 => {
                     let t = txs_t[rng.below(txs_t.len() as u64) as usize].clone();
                     if !asked_t.contains(&t) { asked_t.push(t.clone()); }
                     let r = tx_rpc.fetch_transaction(t.unpack());
@@ -208,15 +223,26 @@ pub(crate) fn run(seed: u64, n: u64, out: &mut Out) {
                     let mut exts: Vec<packed::BytesOpt> = honest.blocks_extension().into_iter().collect();
                     let mut v1 = rng.chance(2, 3);
                     let mut what: &'static str = if pending_b.is_empty() { "blocks-proof-unsolicited" } else { "blocks-proof-honest" };
-                    if !in_closing && !pending_b.is_empty() && rng.chance(1, 2) {
-                        match rng.below(9) {
+                    if !in_closing && !pending_b.is_empty() && rng.chance(2, 3) {
+                        match rng.below(10) {
                             0 if !hs.is_empty() => { what = "blocks-proof-foreign-header"; let j = rng.below(hs.len() as u64) as usize; let n = rng.range(1, tip - 1); hs[j] = other.chain.headers[(n.min(other.tip())) as usize].data(); }
                             1 if !hs.is_empty() => { what = "blocks-proof-dropped-header"; let j = rng.below(hs.len() as u64) as usize; hs.remove(j); if v1 && j < uncles.len() { uncles.remove(j); exts.remove(j); } }
                             2 => { what = "blocks-proof-extra-header"; let n = rng.range(1, tip - 1); hs.push(bc.chain.headers[n as usize].data()); uncles.push(packed::Byte32::zero()); exts.push(Pack::pack(&bc.chain.extension(n))); }
                             3 if !hs.is_empty() => { what = "blocks-proof-found-as-missing"; let h = hs.remove(0); missing.push(h.calc_header_hash()); if v1 { uncles.remove(0); exts.remove(0); } }
                             4 => { what = "blocks-proof-bad-mmr-proof"; proof = bc.chain.proof(tip, &[1, 2]); }
                             5 => { what = "blocks-proof-newer-last-state-only"; last = bc.chain.packed_vheader(tip - 1); proof = Default::default(); hs.clear(); missing.clear(); uncles.clear(); exts.clear(); }
-                            6 => { what = "blocks-proof-other-last-with-data"; last = bc.chain.packed_vheader(tip - 1); }
+                            6 => {
+                                what = "blocks-proof-other-last-with-data";
+                                last = bc.chain.packed_vheader(tip - 1);
+                                let nums: Vec<u64> = hs.iter().filter_map(|h| bc.chain.number_of(&h.calc_header_hash())).filter(|n| *n < tip - 1).collect();
+                                if nums.len() == hs.len() { proof = bc.chain.proof(tip - 1, &nums); }
+                            }
+                            8 if missing.contains(&forged_header.calc_header_hash()) => {
+                                what = "blocks-proof-forged-header-at-last-number";
+                                let fh = forged_header.calc_header_hash();
+                                missing.retain(|m| m != &fh);
+                                hs.push(forged_header.clone()); uncles.push(packed::Byte32::zero()); exts.push(Pack::pack(&bc.chain.extension(3)));
+                            }
                             7 if v1 && !exts.is_empty() => { what = "blocks-proof-bad-extension"; exts[0] = Pack::pack(&Some(ckb_types::bytes::Bytes::from(vec![1u8; 32]).pack())); }
                             _ if !missing.is_empty() => { what = "blocks-proof-missing-as-found"; let m = missing.remove(0); let _ = m; let n = rng.range(1, tip - 1); hs.push(other.chain.headers[n.min(other.tip()) as usize].data()); uncles.push(packed::Byte32::zero()); exts.push(Pack::pack(&None::<packed::Bytes>)); }
                             _ => {}
@@ -276,10 +302,15 @@ pub(crate) fn run(seed: u64, n: u64, out: &mut Out) {
                         numbers.push(*b);
                     }
                     let mut last = bc.chain.packed_vheader(tip);
-                    let mut proof = bc.chain.proof(tip, &numbers);
                     let mut what: &'static str = if pending_t.is_empty() { "txs-proof-unsolicited" } else { "txs-proof-honest" };
-                    if !in_closing && !pending_t.is_empty() && rng.chance(1, 2) {
-                        match rng.below(7) {
+                    if blocks.len() >= 2 && rng.chance(1, 2) {
+                        // the order of the filtered blocks is the server's choice
+                        what = if pending_t.is_empty() { "txs-proof-unsolicited" } else { "txs-proof-honest-descending-blocks" };
+                        blocks.reverse(); numbers.reverse();
+                    }
+                    let mut proof = bc.chain.proof(tip, &numbers);
+                    if !in_closing && !pending_t.is_empty() && rng.chance(2, 3) {
+                        match rng.below(8) {
                             0 if !blocks.is_empty() => {
                                 // the right header with a different transaction under the same Merkle proof
                                 what = "txs-proof-forged-transaction";
@@ -292,6 +323,7 @@ pub(crate) fn run(seed: u64, n: u64, out: &mut Out) {
                             1 if !blocks.is_empty() => { what = "txs-proof-wrong-witnesses-root"; let fb = blocks[0].clone(); blocks[0] = fb.as_builder().witnesses_root([7u8; 32].pack()).build(); }
                             2 if !blocks.is_empty() => { what = "txs-proof-other-block-header"; let fb = blocks[0].clone(); let n = numbers[0]; let m = if n + 1 < tip { n + 1 } else { n - 1 }; blocks[0] = fb.as_builder().header(bc.chain.headers[m as usize].data()).build(); numbers[0] = m; proof = bc.chain.proof(tip, &numbers); }
                             3 => { what = "txs-proof-bad-mmr-proof"; proof = bc.chain.proof(tip, &[1, 2]); }
+                            6 if !numbers.is_empty() && numbers.iter().all(|n| *n < tip - 1) => { what = "txs-proof-other-last-with-data"; last = bc.chain.packed_vheader(tip - 1); proof = bc.chain.proof(tip - 1, &numbers); }
                             4 => { what = "txs-proof-newer-last-state-only"; last = bc.chain.packed_vheader(tip - 1); proof = Default::default(); blocks.clear(); missing.clear(); }
                             5 if !blocks.is_empty() => { what = "txs-proof-found-as-missing"; let fb = blocks.remove(0); numbers.remove(0); for t in fb.transactions().into_iter() { missing.push(t.calc_tx_hash()); } proof = bc.chain.proof(tip, &numbers); }
                             _ if !missing.is_empty() && !blocks.is_empty() => {
@@ -325,6 +357,11 @@ pub(crate) fn run(seed: u64, n: u64, out: &mut Out) {
                 _ => continue,
             };
             *kinds.entry(name).or_insert(0) += 1;
+            if name.ends_with("other-last-with-data") {
+                if v.to_coq().contains("200") {
+                    problems.push(format!("[C02-answer-for-unrequested-last-state-accepted] {}: data proven against a last header the client never asked about (and never proved) was accepted", name));
+                }
+            }
             // a banned peer is dropped by the network layer
             events.push(term);
             obs.push(Val::l(vec![v, observe(&net, &mut hid, &headers_t, &txs_t)]));
@@ -392,6 +429,22 @@ fn block_body_cases(rng: &mut Rng, consensus: &ckb_chain_spec::consensus::Consen
     net.peers.mock_latest_block_filter_hashes(p, 0, hashes);
     let batch = serve_block_filters(&bc, 1, 9);
     let r = net.fp_recv(p, filters_message(batch));
+    // a body arrives before its header is proven: it must not be kept
+    let mut n_case = 0;
+    for (_, s) in r.sent.iter() {
+        if let Sent::GetBlocksProof(req) = s {
+            for h in req.block_hashes().into_iter().take(2) {
+                if let Some(n) = bc.chain.number_of(&h) {
+                    let r0 = net.sp_recv(p, send_block_message(bc.chain.block(n)));
+                    let kept = net.peers.matched_blocks().read().map(|m| { let k: H256 = h.unpack(); m.get(&k).map(|v| v.1.is_some()).unwrap_or(true) }).unwrap_or(true);
+                    let oracle = if kept { Err("[C02-unproved-block-body-kept] the body of a matched block whose header is not yet proven was kept for indexing".to_string()) } else { Ok(()) };
+                    out.case(&format!("body-{}-{}", world, n_case), &["send-block", "unproved-hash"], "(run_accept_block [(1, false)] 1 true)", &Val::b(kept && r0.bans.is_empty()), oracle,
+                        &format!("SendBlock for matched block #{} before its header is proven", n));
+                    n_case += 1;
+                }
+            }
+        }
+    }
     // prove the matched blocks, stop before the bodies
     let mut get_blocks: Vec<packed::Byte32> = Vec::new();
     for (q, s) in r.sent {
@@ -403,7 +456,6 @@ fn block_body_cases(rng: &mut Rng, consensus: &ckb_chain_spec::consensus::Consen
     }
     if get_blocks.is_empty() { return; }
     let mut problems: Vec<String> = Vec::new();
-    let mut n_case = 0;
     for h in get_blocks.clone() {
         let n = bc.chain.number_of(&h).unwrap();
         let good = bc.chain.block(n);
